@@ -859,3 +859,39 @@ func parseFormat(f string) (pieces, verbs []string) {
 	pieces = append(pieces, cur)
 	return
 }
+
+// helperOnlyOf: h is an unexported function all of whose references are static calls from
+// functions accepted by pred, or from other such helpers (three levels).
+func helperOnlyOf(p *Program, h *ssa.Function, pred func(f *ssa.Function) bool, depth int) bool {
+	if h == nil || h.Object() == nil || h.Object().Exported() || depth > 3 {
+		return false
+	}
+	n := 0
+	for _, f := range p.SrcFuncs() {
+		for _, b := range f.Blocks {
+			for _, in := range b.Instrs {
+				for _, op := range in.Operands(nil) {
+					if *op != ssa.Value(h) {
+						continue
+					}
+					cl, isCall := in.(*ssa.Call)
+					if !isCall || staticCallee(cl.Common()) != h {
+						return false // used as a value
+					}
+					root := f
+					for root.Parent() != nil {
+						root = root.Parent()
+					}
+					if root == h {
+						continue
+					}
+					n++
+					if !pred(root) && !helperOnlyOf(p, root, pred, depth+1) {
+						return false
+					}
+				}
+			}
+		}
+	}
+	return n > 0
+}
